@@ -192,7 +192,7 @@ class ContractMixin:
         if text.startswith("dict:"):
             _, kk, vk = text.split(":", 2)
             kf, vf = elem_heapkey(kk), elem_heapkey(vk)
-            return [("dhas", kf), ("dval", kf, vf), ("dn", kf), ("dkeys", kf)]
+            return [("dhas", kf), ("dval", kf, vf), ("dn", kf), ("dkeys", kf), ("dpos", kf)]
         if text.startswith("set:"):
             fam = elem_heapkey(text[4:])
             return [("shas", fam), ("sn", fam)]
